@@ -268,17 +268,83 @@ fn eval_matrix<B: StarkField, E: FieldElement<BaseField = B>>(op: usize, cols: u
     }
 }
 
+/// The case of a Prove workload. Besides the general generator (as in C01) two corners of the
+/// parameter space that it reaches too rarely:
+/// * a grinding factor of 20 / 21 (cheap hashers only): the nonce search then runs through more
+///   than 2^20 candidates, i.e. through the part of the search space that a chunked or windowed
+///   parallel search only reaches after its first chunk is exhausted;
+/// * the largest blowup factors on the shortest traces with a constraint of the highest degree the
+///   blowup admits: every per-batch index computation of the evaluator then sees batches that are
+///   smaller than the constraint-evaluation blowup for pools of 9..64 workers.
+/// Both sides (this build and the serial one) call this function on the same tape.
+pub fn gen_prove_case<B: SimField>(ch: &mut Chooser, thorough: bool, cheap_hasher: bool) -> Case<B> {
+    let lim = GenLimits { max_log_len: if thorough { 11 } else { 10 }, max_width: 40, max_grinding: 3, allow_aux: true };
+    match ch.weighted("prove.corner", &[10, 1, 2]) {
+        1 => {
+            let small = GenLimits { max_log_len: 5, max_width: 6, max_grinding: 0, allow_aux: false };
+            let mut case = gen_case::<B>(ch, &small);
+            let o = case.options.clone();
+            let fo = o.to_fri_options();
+            let g = if cheap_hasher { 20 + ch.index("prove.grinding", 2) as u32 } else { 12 };
+            case.options = air::ProofOptions::new(o.num_queries().min(8), o.blowup_factor(), g, o.field_extension(), fo.folding_factor(), fo.remainder_max_degree());
+            case
+        },
+        2 => {
+            let log_len = 3 + ch.index("corner.loglen", 2) as u32;
+            let n = 1usize << log_len;
+            let blowup = [64usize, 128][ch.index("corner.blowup", 2)];
+            let width = 1 + ch.index("corner.width", 2);
+            // degree d needs a blowup of next_power_of_two(d - 1)... let the shape say; take the
+            // largest d the blowup admits, or one just above half of it
+            let mut rules = vec![];
+            for c in 0..width {
+                let d = if ch.chance("corner.maxdeg?", 1, 2) { blowup } else { blowup / 2 + 2 + ch.index("corner.deg", blowup / 2 - 2) };
+                rules.push(Rule::Pow { col: c, a: (c + 1) % width, d, k: 1 + ch.pick("corner.k", 1000) });
+            }
+            let mut shape = Shape {
+                width,
+                log_len,
+                rules,
+                periodic: vec![],
+                exemptions: 1,
+                aux: None,
+                assertions: vec![AssertSpec { kind: AssertKind::Single, col: 0, first: 0, stride: 0, count: 1 }],
+                meta: vec![],
+            };
+            while shape.min_blowup() > blowup {
+                for r in shape.rules.iter_mut() {
+                    if let Rule::Pow { d, .. } = r {
+                        *d -= 1;
+                    }
+                }
+            }
+            let mut rows: Vec<Vec<B>> = vec![(0..width).map(|c| felt::<B>(3 + c as u64 + ch.pick("corner.init", 1 << 30))).collect()];
+            for i in 0..n - 1 {
+                let cur = rows[i].clone();
+                rows.push(shape.rules.iter().map(|r| r.apply(&cur, &[])).collect());
+            }
+            let inputs = SimInputs::from_trace(&shape, &rows);
+            let ext = [air::FieldExtension::None, air::FieldExtension::Quadratic][ch.index("corner.ext", 2)];
+            let ext = if ext_supported::<B>(ext) { ext } else { air::FieldExtension::None };
+            let q = 1 + ch.index("corner.q", 8);
+            let options = air::ProofOptions::new(q, blowup, 0, ext, 2, [0usize, 1, 3][ch.index("corner.rmax", 3)]);
+            Case { blowup, shape, rows, inputs, options }
+        },
+        _ => gen_case::<B>(ch, &lim),
+    }
+}
+
 struct ProveJob<'a> {
     ch: &'a mut Chooser,
     thorough: bool,
+    cheap: bool,
 }
 
 impl<'a> Job for ProveJob<'a> {
     type Out = Out;
     fn run<B: SimField, H: ElementHasher<BaseField = B> + Send + Sync + 'static>(self) -> Out {
         // sizes on both sides of the thresholds: 1024 LDE points / leaves, 8192 CE rows
-        let lim = GenLimits { max_log_len: if self.thorough { 11 } else { 10 }, max_width: 40, max_grinding: 3, allow_aux: true };
-        let case = gen_case::<B>(self.ch, &lim);
+        let case = gen_prove_case::<B>(self.ch, self.thorough, self.cheap);
         let (out, _) = prove::<B, H, DefaultRandomCoin<H>>(&case, &case.rows, None);
         match out {
             ProveOutcome::Ok(p) => {
@@ -308,7 +374,7 @@ pub fn eval(work: &Work, ch: &mut Chooser, thorough: bool) -> Out {
         Work::Matrix { elem, op, cols, log_rows, blowup, hasher, salt } => with_elem!(elem, eval_matrix(op, cols, log_rows, blowup, hasher, salt)),
         Work::Prove => {
             let cfg = gen_cfg(ch, false);
-            dispatch(cfg, ProveJob { ch, thorough })
+            dispatch(cfg, ProveJob { ch, thorough, cheap: !is_rescue(cfg) })
         },
     }
 }
@@ -438,18 +504,18 @@ fn scenario(info: &RunInfo, ch: &mut Chooser, ctx: &mut Ctx) {
         // the workload choices of the case are drawn now (dry generation), before any schedule
         // choice, so that they are on the tape and can be sent to the serial build
         let cfgr = gen_cfg(ch, false);
-        let lim = GenLimits { max_log_len: if thorough { 11 } else { 10 }, max_width: 40, max_grinding: 3, allow_aux: true };
         struct G<'a> {
             ch: &'a mut Chooser,
-            lim: GenLimits,
+            thorough: bool,
+            cheap: bool,
         }
         impl<'a> Job for G<'a> {
             type Out = ();
             fn run<B: SimField, H: ElementHasher<BaseField = B> + Send + Sync + 'static>(self) {
-                let _ = gen_case::<B>(self.ch, &self.lim);
+                let _ = gen_prove_case::<B>(self.ch, self.thorough, self.cheap);
             }
         }
-        dispatch(cfgr, G { ch, lim });
+        dispatch(cfgr, G { ch, thorough, cheap: !is_rescue(cfgr) });
         ch.values()
     } else {
         pre_prove.clone()
